@@ -58,6 +58,8 @@ Exec(t, env) ==
 (* where a bag maps leaf ids to the number of payload iterations started:  *)
 (* ex = during execute(), it = during each full iteration of the result.   *)
 (***************************************************************************)
+\* TRUE: the code after the fix of finding F29 (a companion configuration overrides it)
+FixF29 == TRUE
 LeafIds(t) == {n.id : n \in {m \in Nodes(t) : m.k = "leaf"}}
 ZeroBag(ids) == [i \in ids |-> 0]
 AddBag(x, y) == [i \in DOMAIN x |-> x[i] + y[i]]
@@ -80,8 +82,16 @@ CostG(t, ids, lk) ==
                         \* RowMapping.to_mapping returns self for the same unique key
                         IF c.kind = "map" /\ t.t.k = "un" /\ t.t.op.o = "dedup" THEN c
                         ELSE [ex |-> AddBag(c.ex, c.it), it |-> ZeroBag(ids), kind |-> "map"]
-                  [] t.op.o \in {"sort", "cust"} ->     \* (the harness engine evaluates extension operations eagerly)
-                        [ex |-> AddBag(c.ex, c.it), it |-> ZeroBag(ids), kind |-> "seq"])
+                  [] t.op.o = "sort" ->
+                        [ex |-> AddBag(c.ex, c.it), it |-> ZeroBag(ids), kind |-> "seq"]
+                  \* an extension operation: apply_custom_unary_operation(operation, target) receives the TARGET
+                  \* RELATION and executes it itself (the documented recipe; the harness engine then consumes the
+                  \* rows eagerly).  The pinned-commit execute() had ALREADY executed the target before it
+                  \* dispatched on the operation (finding F29): whatever the target does at execute time - a
+                  \* sort, a deduplication, another extension operation - was done twice
+                  [] t.op.o = "cust" ->
+                        [ex |-> IF FixF29 THEN AddBag(c.ex, c.it) ELSE AddBag(c.ex, AddBag(c.ex, c.it)),
+                         it |-> ZeroBag(ids), kind |-> "seq"])
            [] t.k = "bin" ->
                 LET l == CostG(t.l, ids, lk)  r == CostG(t.r, ids, lk) IN
                 [ex |-> AddBag(l.ex, r.ex), it |-> AddBag(l.it, r.it), kind |-> "lazy"]
